@@ -55,7 +55,7 @@ Definition vbool (b : bool) : value := VData (if b then 1 else 0) [].
 Definition vunit : value := VData 0 [].
 Definition vnone : value := VData 0 [].
 Definition vsome (v : value) : value := VData 1 [v].
-Definition verr_unit : value := VData 0 [vunit].     (* Err () *)
+Definition verr_unit : value := VData 0 [VInt 0].    (* Err (): a Rust `()` is pushed as Int 0 *)
 Definition vok (v : value) : value := VData 1 [v].
 Definition vpair (a b : value) : value := VData 0 [a; b].
 Definition vopt_int (o : option Z) : value := match o with Some z => vsome (VInt z) | None => vnone end.
@@ -556,9 +556,9 @@ Definition callee_table : list (string * csem) :=
   ; ("::std::char::from_u32", i1 (fun a => if is_scalar (as_u32 a) then vsome (VInt (as_u32 a)) else vnone))
   ; ("|c:char|casu32", c1 (fun c => VInt c))
   ; ("std::char::prim::is_digit", mk_csem [TChar; TInt] (PRadix 1 2 36) no_err sem_is_digit [AChar 49; AInt 37])
-  ; ("char::is_digit", mk_csem [TChar; TInt] (PRadix 1 2 36) no_err sem_is_digit [AChar 49; AInt 37])
+  ; ("character::is_digit", mk_csem [TChar; TInt] (PRadix 1 2 36) no_err sem_is_digit [AChar 49; AInt 37])
   ; ("std::char::prim::to_digit", mk_csem [TChar; TInt] (PRadix 1 2 36) no_err sem_to_digit [AChar 49; AInt 37])
-  ; ("char::to_digit", mk_csem [TChar; TInt] (PRadix 1 2 36) no_err sem_to_digit [AChar 49; AInt 37])
+  ; ("character::to_digit", mk_csem [TChar; TInt] (PRadix 1 2 36) no_err sem_to_digit [AChar 49; AInt 37])
   ; ("std::char::prim::len_utf8", c1 (fun c => VInt (len_utf8 c)))
   ; ("std::char::prim::len_utf16", c1 (fun c => VInt (if c <? 65536 then 1 else 2)))
   ; ("std::char::prim::is_alphabetic", c1 (ascii_pred (fun c => ascii_lower c || ascii_upper c)))
@@ -606,7 +606,7 @@ Definition callee_table : list (string * csem) :=
   ; ("std::effect::st::string::prim::slice", mk_csem [TBuf; TInt; TInt] (PStrRange 0 1 2) no_err sem_str_slice
         [ABuf [104; 101; 108; 108; 111]%Z; AInt 3; AInt 1])
   ; ("std::effect::st::string::prim::pop", total [TBuf] (fun a => vopt_int (last_char (str_at 0 a))))
-  ; ("std::effect::st::string::prim::push_str", total [TBuf; TStr] (fun _ => vunit))
+  ; ("std::effect::st::string::prim::push_str", total [TBuf; TStr] (fun _ => VInt 0))
     (* ---- std.prim ---- *)
   ; ("std::prim::show_int", i1 (fun a => VStr (show_z a)))
   ; ("std::prim::show_float", opaque [TFloat])
